@@ -254,7 +254,7 @@ check('C06',
       'share, fuel drawn, cash flow), and for T <= 6 all 2^T on/off patterns are pinned through bounds and their feasibility compared '
       'with the run-length specification (units without profiles).',
       TB + 'Not modelled: separate heat profiles and profiles in another frequency than the grid (interpolation); the release of the ramp '
-      'rows during profiles is tied by correspondence only; the link between the abstract row inequalities and the list of rows Plant.v '
+      'rows during profiles is proved on the named release terms the builder emits (ramp binds without a flag in reach, row implied with one); the link between the abstract row inequalities and the list of rows Plant.v '
       'emits is by the row-shape lemmas and the correspondence run, not one theorem about the builder. Durations are converted to steps '
       'by the documented rounding up (harness side).',
       'Coq proof (run-length characterisation of the rows, partial) + differential correspondence + pattern enumeration on the implementation', 'DESIGN.md 4 C06')
